@@ -15,6 +15,8 @@ import (
 	"sync/atomic"
 	"testing"
 	"time"
+
+	pkgErrors "github.com/pkg/errors"
 )
 
 func TestVerifC03(t *testing.T) {
@@ -94,68 +96,119 @@ func TestVerifC03(t *testing.T) {
 				}
 			}
 		}(r.next())
-		// HW mover (any step size, any position relative to segment boundaries)
+		// HW movers (any step size, any position relative to segment boundaries). On a leader the
+		// message loop (RF=1 fast path) and the commit loop both move the HW, so there are 1-3 of them;
+		// each checks that the HW it set is in force when SetHighWatermark returns.
+		nmovers := 1 + r.intn(3)
+		for mv := 0; mv < nmovers; mv++ {
+			wg.Add(1)
+			go func(seed uint64) {
+				defer wg.Done()
+				rr := vNewRand(seed)
+				for {
+					select {
+					case <-stopAppend:
+						return
+					default:
+					}
+					a := atomic.LoadInt64(&appended)
+					if a >= 0 {
+						h := int64(rr.intn(int(a) + 1))
+						l.SetHighWatermark(h)
+						if now := l.HighWatermark(); now < h {
+							setViol("hw-below-set", fmt.Sprintf("SetHighWatermark(%d) returned and HighWatermark() is %d", h, now))
+						}
+					}
+					if rr.intn(3) > 0 {
+						time.Sleep(time.Duration(rr.intn(400)) * time.Microsecond)
+					}
+				}
+			}(r.next())
+		}
+		// one sampler: the HW never goes back
 		wg.Add(1)
-		go func(seed uint64) {
+		go func() {
 			defer wg.Done()
-			rr := vNewRand(seed)
 			for {
 				select {
 				case <-stopAppend:
 					return
 				default:
 				}
-				a := atomic.LoadInt64(&appended)
-				if a >= 0 {
-					h := int64(rr.intn(int(a) + 1))
-					l.SetHighWatermark(h)
-				}
 				now := l.HighWatermark()
-				if now < atomic.LoadInt64(&hwMonotone) {
+				if now < hwMonotone {
 					setViol("hw-backwards", fmt.Sprintf("HighWatermark() went from %d to %d", hwMonotone, now))
 				}
-				atomic.StoreInt64(&hwMonotone, now)
-				time.Sleep(time.Duration(rr.intn(400)) * time.Microsecond)
+				hwMonotone = now
 			}
-		}(r.next())
+		}()
+		statsMu.Lock()
+		stats[fmt.Sprintf("hw-movers=%d", nmovers)]++
+		statsMu.Unlock()
 		// readers
 		type rdRes struct {
 			start, first, last int64
 			count              int
 		}
 		results := make([]rdRes, nreaders)
+		lastOf := func(i int) int64 { return atomic.LoadInt64(&results[i].last) }
+		roSeen := make([]int32, nreaders)
+		var roPhase, roGen int32
 		var rwg sync.WaitGroup
 		for i := 0; i < nreaders; i++ {
 			start := int64(r.intn(pre + 6))
 			if r.intn(4) == 0 {
 				start = int64(total/2 + r.intn(10)) // far beyond the HW at creation
 			}
-			hwAtCreation := l.HighWatermark()
+			hwBefore := l.HighWatermark()
 			rd, err := l.NewReader(start, false)
+			hwAfter := l.HighWatermark()
 			if err != nil {
 				setViol("reader-create", err.Error())
 				continue
 			}
-			// position per the commit log's (tested) contract: beyond the HW, or on an empty log, it resumes at hw+1
-			expect := start
-			if start > hwAtCreation || pre == 0 {
-				expect = hwAtCreation + 1
+			// position per the commit log's (tested) contract: at the requested offset, or -- beyond the HW,
+			// or on an empty log -- at hw+1 for the HW in force when the reader was created. The HW movers
+			// run meanwhile, so that HW lies between the two samples: the first delivery is judged against
+			// the window, everything after it must be consecutive.
+			expect := int64(-1) // unknown until the first delivery
+			lo, hi := hwBefore+1, hwAfter+1
+			if start <= hwBefore && pre > 0 {
+				lo, hi = start, start
+			} else if start <= hwAfter && pre > 0 {
+				hi = start // created while the HW passed the requested offset: either rule
 			}
-			results[i] = rdRes{start: start, first: -1, last: expect - 1}
+			results[i] = rdRes{start: start, first: -1, last: -2}
 			rwg.Add(1)
-			go func(i int, rd *Reader, expect int64) {
+			go func(i int, rd *Reader, expect, lo, hi int64) {
 				defer rwg.Done()
 				hb := make([]byte, 28)
 				for {
+					gen0, phase0 := atomic.LoadInt32(&roGen), atomic.LoadInt32(&roPhase)
 					m, off, _, _, err := rd.ReadMessage(ctx, hb)
 					if err != nil {
+						if (err == ErrCommitLogReadonly || pkgErrors.Cause(err) == ErrCommitLogReadonly) && ctx.Err() == nil {
+							// the end of a read-only log: everything up to the log end has been delivered
+							// (nothing is appended while the phase that sets read-only waits for this report)
+							// judged only when the whole call fell into one read-only phase (nothing is appended then)
+							if leo := l.NewestOffset(); atomic.LoadInt64(&results[i].last) < leo && phase0 == 1 && atomic.LoadInt32(&roPhase) == 1 && atomic.LoadInt32(&roGen) == gen0 {
+								setViol("readonly-end-before-delivery", fmt.Sprintf("reader %d was told the read-only log has ended after offset %d; the log ends at %d and the high watermark is %d", i, results[i].last, leo, l.HighWatermark()))
+							}
+							atomic.AddInt32(&roSeen[i], 1)
+							time.Sleep(200 * time.Microsecond)
+							continue
+						}
 						return
 					}
 					hwNow := l.HighWatermark()
 					if off > hwNow {
 						setViol("above-hw", fmt.Sprintf("reader %d was handed offset %d while the high watermark is %d", i, off, hwNow))
 					}
-					if off != results[i].last+1 {
+					if results[i].last == -2 {
+						if off < lo || off > hi {
+							setViol("first-delivery", fmt.Sprintf("reader %d created at offset %d while the high watermark was between %d and %d delivered offset %d first", i, results[i].start, lo-1, hi-1, off))
+						}
+					} else if off != results[i].last+1 {
 						setViol("order", fmt.Sprintf("reader %d (start %d) got offset %d after %d", i, results[i].start, off, results[i].last))
 					}
 					if string(m.Value()) != bodyOf(off) {
@@ -167,7 +220,7 @@ func TestVerifC03(t *testing.T) {
 					atomic.StoreInt64(&results[i].last, off)
 					results[i].count++
 				}
-			}(i, rd, expect)
+			}(i, rd, expect, lo, hi)
 		}
 		// let it run, then quiesce
 		deadline := time.Now().Add(3 * time.Second)
@@ -183,7 +236,7 @@ func TestVerifC03(t *testing.T) {
 		for time.Now().Before(deadline) {
 			all := true
 			for i := range results {
-				if results[i].last < end {
+				if lastOf(i) < end {
 					all = false
 				}
 			}
@@ -193,8 +246,8 @@ func TestVerifC03(t *testing.T) {
 			time.Sleep(time.Millisecond)
 		}
 		for i := range results {
-			if results[i].last < end {
-				setViol("lost-wakeup", fmt.Sprintf("reader %d (start %d) stopped at offset %d although the high watermark covers %d", i, results[i].start, results[i].last, end))
+			if lastOf(i) < end {
+				setViol("lost-wakeup", fmt.Sprintf("reader %d (start %d) stopped at offset %d although the high watermark covers %d", i, results[i].start, lastOf(i), end))
 			}
 		}
 		// lockstep phase: every reader is caught up and about to park (or parked) on the current
@@ -228,8 +281,8 @@ func TestVerifC03(t *testing.T) {
 			}
 			if !got {
 				for i := range results {
-					if results[i].last < end {
-						setViol("lost-wakeup", fmt.Sprintf("reader %d had consumed up to %d and was waiting for the high watermark; it moved to %d (the only change) and the reader was not woken", i, results[i].last, end))
+					if lastOf(i) < end {
+						setViol("lost-wakeup", fmt.Sprintf("reader %d had consumed up to %d and was waiting for the high watermark; it moved to %d (the only change) and the reader was not woken", i, lastOf(i), end))
 					}
 				}
 				clean = false
@@ -238,6 +291,60 @@ func TestVerifC03(t *testing.T) {
 			stats["lockstep-hw-moves"]++
 			statsMu.Unlock()
 		}
+		// read-only phase: the log is set read-only while the HW is behind the log end and every
+		// reader has consumed up to the HW; then the HW moves to the end, racing with the readers'
+		// waits.  Each reader must deliver the rest before it is told that the log has ended.
+		rosteps := vEnvInt("VERIF_RO_STEPS", 60)
+		violMu.Lock()
+		clean = viol == ""
+		violMu.Unlock()
+		for step := 0; step < rosteps && clean; step++ {
+			atomic.StoreInt32(&roPhase, 0)
+			atomic.AddInt32(&roGen, 1)
+			l.SetReadonly(false)
+			hwOld := l.HighWatermark()
+			appendN(1 + r.intn(3))
+			end = l.NewestOffset()
+			// readers are all at hwOld (previous step ended with everything delivered)
+			l.SetReadonly(true)
+			atomic.StoreInt32(&roPhase, 1)
+			for i := range roSeen {
+				atomic.StoreInt32(&roSeen[i], 0)
+			}
+			for spin := r.intn(300); spin > 0; spin-- {
+				_ = atomic.LoadInt64(&appended)
+			}
+			l.SetHighWatermark(end)
+			deadline = time.Now().Add(2 * time.Second)
+			got := false
+			for !got && time.Now().Before(deadline) {
+				got = true
+				for i := range results {
+					if atomic.LoadInt64(&results[i].last) < end || atomic.LoadInt32(&roSeen[i]) == 0 {
+						got = false
+					}
+				}
+				if !got {
+					time.Sleep(50 * time.Microsecond)
+				}
+			}
+			violMu.Lock()
+			clean = viol == ""
+			violMu.Unlock()
+			if !got && clean {
+				for i := range results {
+					if atomic.LoadInt64(&results[i].last) < end {
+						setViol("lost-wakeup", fmt.Sprintf("read-only log, reader %d had consumed up to %d (HW %d); the HW moved to the log end %d and the reader delivered nothing more", i, lastOf(i), hwOld, end))
+					}
+				}
+				clean = false
+			}
+			statsMu.Lock()
+			stats["readonly-hw-moves"]++
+			statsMu.Unlock()
+		}
+		atomic.StoreInt32(&roPhase, 0)
+		l.SetReadonly(false)
 		cancel()
 		rwg.Wait()
 		l.Close()
